@@ -24,10 +24,10 @@ import (
 )
 
 type determCase struct {
-	ID   string `json:"id"`
-	Src  string `json:"src"`
-	Text string `json:"text"`
-	Obs  []any  `json:"obs"`  // one observation per run: [kind, printed-or-error, stdout]
+	ID   string   `json:"id"`
+	Src  string   `json:"src"`
+	Text string   `json:"text"`
+	Obs  []any    `json:"obs"`  // one observation per run: [kind, printed-or-error, stdout]
 	Runs []string `json:"runs"` // where each run happened: "inproc", "inproc-after-pollution", "process"
 }
 
@@ -124,6 +124,9 @@ func pollute(i int) {
 var determFixed = []string{
 	"(str (unjson (raw `{\"b\":1,\"a\":2,\"c\":3,\"d\":4,\"e\":5}`)))\n",
 	"(keys (unjson (raw `{\"k1\":1,\"k2\":{\"z\":1,\"y\":2,\"x\":3},\"k3\":3}`)))\n",
+	"(str (unjson (raw `{\"id\":1,\"Id\":2,\"ID\":3,\"iD\":4,\"name\":\"x\"}`)))\n",
+	"(str (unjson (raw `{\"a\":1,\"A\":2,\"aa\":3,\"Aa\":4,\"aA\":5,\"a \":6,\" a\":7,\"a.\":8}`)))\n",
+	"(keys (unmsgpack (msgpack (unjson (raw `{\"k\":1,\"K\":2,\"kk\":{\"z\":1,\"Z\":2}}`)))))\n",
 	"(def h (hash c: 3 a: 1 b: 2 \"s\" 4 7 5))\n(str h)\n(keys h)\n(json h)\n",
 	"(str (unmsgpack (msgpack (hash c: 3 a: 1 b: 2))))\n",
 	"(def o (nestouter inner: (nestinner hello: \"hi\")))\n(str o)\n(togo o)\n(str o)\n(json o)\n",
